@@ -4,5 +4,6 @@ CONSTRAINT Bound
 INVARIANT StrictFirstRefused
 INVARIANT WarnLost
 INVARIANT ProtocolEnforced
+INVARIANT ThresholdOrder
 PROPERTY Reflexive
 CHECK_DEADLOCK FALSE
